@@ -64,7 +64,7 @@ func (sp *SetPlan) VerifyScript() []byte {
 		return sp.Script
 	}
 	if len(sp.Keys) == 1 {
-		return program.ProgramFromPubKey(sp.Keys[0].Pub)
+		return SpecSingleScript(sp.Keys[0])
 	}
 	if sp.Unsorted {
 		var sers [][]byte
@@ -73,21 +73,14 @@ func (sp *SetPlan) VerifyScript() []byte {
 		}
 		return RawMultiScript(sp.M, sers, len(sp.Keys))
 	}
-	prog, err := program.ProgramFromMultiPubKey(pubsOf(append([]*Key{}, sp.Keys...)), sp.M)
-	if err != nil {
-		panic(err)
-	}
-	return prog
+	return SpecMultiScript(sp.M, sp.Keys)
 }
 
-// Address is the account the validator derives for the set (from its parsed keys).
+// Address is the standard account of the set's (keys, M) (spec-level, not the node's functions).
 func (sp *SetPlan) Address() common.Address {
-	if len(sp.Keys) == 1 {
-		return types.AddressFromPubKey(sp.Keys[0].Pub)
-	}
-	a, err := types.AddressFromMultiPubKeys(pubsOf(append([]*Key{}, sp.Keys...)), sp.M)
-	if err != nil {
-		panic(err)
+	a, ok := SpecAddress(sp.Keys, sp.M)
+	if !ok {
+		panic("no address for the set")
 	}
 	return a
 }
@@ -308,7 +301,7 @@ func (d *Drv) Defect(b *Built, name string) (raw []byte, expect string) {
 		if multi == nil {
 			return nil, ""
 		}
-		a := types.AddressFromPubKey(multi.Keys[c.Intn(len(multi.Keys))].Pub)
+		a, _ := SpecAddress([]*Key{multi.Keys[c.Intn(len(multi.Keys))]}, 1)
 		for _, x := range pl.Sets {
 			if x.Address() == a {
 				return nil, ""
@@ -709,7 +702,7 @@ func (d *Drv) Generate(bases []Base) {
 				c.Count("defect-not-applicable:" + name)
 				continue
 			}
-			d.DoTx(Input{Kind: "defect:" + name, Expect: expect}, raw, b.AllKeys())
+			d.DoTx(Input{Kind: "defect:" + name, Expect: expect, Valid: hx.Hex(b.Raw)}, raw, b.AllKeys())
 		}
 	}
 	// 6. single-byte and structural mutations of small accepted transactions
